@@ -72,6 +72,10 @@ def enumerate_cases(tier, seed):
       for slope in (0.0, 0.5):
         if bits <= 3:
           out.append(dict(fam="po2", cls="quantized_relu_po2", bits=bits, max_value=mv, slope=slope))
+  # wide exponent ranges (down to 2^-64) on very small inputs, including the float32 neighbours just below a power of
+  # two: the bracketing of y between two powers of two must not depend on the epsilon added inside the logarithm
+  out.append(dict(fam="po2", cls="quantized_po2", bits=8, max_value=None, slope=0.0, wide=True))
+  out.append(dict(fam="po2", cls="quantized_relu_po2", bits=7, max_value=None, slope=0.0, wide=True))
   for alpha in (None, 1.0, "auto", "auto_po2"):
     for u01 in (False, True):
       out.append(dict(fam="sign", cls="binary", alpha=alpha, use_01=u01))
@@ -265,6 +269,20 @@ class Po2(_Model):
 
   def x(self):
     vals = []
+    if self.c.get("wide"):
+      for e in (-23, -22, -21, -20, -18, -16, -14, -10, -3, 0, 5, 20):
+        for j in range(8):
+          vals.append(2.0 ** e * (1 + j / 8.0))
+        p = np.float32(2.0 ** e)
+        for _ in range(3):
+          p = np.nextafter(p, np.float32(0), dtype=np.float32)
+          vals.append(float(p))
+        vals.append(2.0 ** e * (1 - 2.0 ** -12))
+      a = np.array(vals, dtype=np.float32)
+      # below the library's epsilon the code is 2^min_exp = 2^-64, far outside the float32 horizon of the
+      # straight-through form x + (q - x) (|x| < 2^22 |q|, the horizon C03 states): not part of the claim
+      a = a[a >= np.float32(1.1e-7)]
+      return np.unique(np.concatenate([-a, a]))
     for e in range(max(self.mn - 2, -6), self.mx + 3):
       for j in range(8):
         vals.append(2.0 ** e * (1 + j / 8.0))
@@ -406,6 +424,12 @@ def run_rounding(c, tf, viol_add):
       continue
     if ncalls == 0:
       viol_add("training-uses-rng", "no random draw was requested in the training phase", "")
+      continue
+    if fam != "po2" and ncalls < mdl.ncalls:
+      # every rounding of the format (positive part, leaky negative part) must draw: a rounding that draws nothing is
+      # deterministic in training, hence biased
+      viol_add("training:draws", "the call requested %d random tensor(s) in the training phase, the format rounds %d "
+               "separately quantized parts (a part rounded without a draw is deterministic)" % (ncalls, mdl.ncalls), "")
       continue
     if fam == "po2":
       y64 = y.astype(np.float64)
